@@ -275,6 +275,17 @@ def c08_constant_pairs(tier, seed):
             pass
         except Exception as e:
             add("attribute reassignment raised %s instead of FrozenInstanceError" % type(e).__name__, i, i)
+    # the position override is part of the value: same constant object, different override -> different; equal override -> equal + same hash
+    for i, v in enumerate(vals):
+        evals += 1
+        for ova, ovb in ((None, 0), (0, 1), (2, None)):
+            x, y = Constant(v, ova), Constant(v, ovb)
+            if x == y or y == x:
+                add("Constants with different position overrides (%r, %r) compare equal" % (ova, ovb), i, i)
+                break
+        x, y = Constant(v, 3), Constant(_mk_nan_copy(v), 3)
+        if not (x == y) or hash(x) != hash(y):
+            add("Constants with the same override and equal constant are unequal or hash differently", i, i)
     n = len(vals)
     pairs = itertools.combinations(range(n), 2)
     for i, j in pairs:
@@ -311,7 +322,7 @@ def c08_pairs_replay(rec):
     return msgs
 
 
-C08_SOURCES = ["x = %s\n", "def f():\n    return %s\n", "def f(a=%s):\n    '''d'''\n    return a\n"]
+C08_SOURCES = ["x = %s\n", "def f():\n    return %s\n", "def f(a=%s):\n    '''d'''\n    return a\n", "def f(x):\n    if x:\n        return %s\n"]
 C08_EXPRS = ["1", "1.0", "True", "0.0", "-0.0", "'a'", "b'a'", "(1, 2.0)", "1e999 - 1e999", "(1e999 - 1e999, 1)", "1j", "-0.0j", "(0.0, -0.0)", "x in {1, 2.0}", "..."]
 
 
@@ -337,6 +348,17 @@ def c08_routes(tier, seed):
                     routes = [("decode", d1), ("decode-again", d2), ("json", d3)]
                     n1, n3 = d1.normalize(), d3.normalize()
                     routes2 = [("normalize", n1), ("json-normalize", n3)]
+                    # values that share constant objects but differ (override information dropped by normalize): eq and hash must agree
+                    for (ra, x), (rb, y) in itertools.product(routes, routes2):
+                        try:
+                            if x == y and hash(x) != hash(y):
+                                msgs.append("%s == %s but hashes differ" % (ra, rb))
+                            if x == y and oracle.code_diff(x.to_code(), y.to_code()):
+                                msgs.append("%s == %s but they encode to different code objects" % (ra, rb))
+                            if (x == y) != (y == x):
+                                msgs.append("equality of %s and %s is not symmetric" % (ra, rb))
+                        except TypeError as e:
+                            msgs.append("hash raised %s" % e)
                     for group in (routes, routes2):
                         for (ra, x), (rb, y) in itertools.combinations(group, 2):
                             if not (x == y and y == x):
